@@ -24,7 +24,7 @@ from .. import units, guards, effects
 MANIFEST = {
     "level": "other",
     "technique": "static analysis: symbolic evaluation of each finder to a term, structural extraction of its prologue constants, audit of those constants against the orbital-element tables with three-valued tolerances (PROVED/REFUTED/INCONCLUSIVE) derived from the property's accuracy, path rule for the range refusal, sibling comparison; the Angle / Epoch operator semantics the evaluator assumes are verified (operator conformance, operands never written)",
-    "text": "All 28 periodic-term finders and 7 perihelion finders are decided at the level of their selection constants: spacing (period), phase (reference epoch), and the anomaly bookkeeping are tied to the library's own mean elements, which is what makes consecutive results one period apart with none skipped; the -2000..4000 refusal is decided on every path. That the returned instant is an event of the VSOP87 theory depends on the periodic correction series evaluated at runtime and is not decided.",
+    "text": "All 28 periodic-term finders and 7 perihelion finders are decided at the level of their selection constants: spacing (period), phase (reference epoch), and the anomaly bookkeeping are tied to the library's own mean elements, which is what makes consecutive results one period apart with none skipped; the -2000..4000 refusal is decided on every path. That the returned instant is an event of the VSOP87 theory depends on the periodic correction series evaluated at runtime and is not decided. No finder swallows the refusal of the routine it refines with: a handler around minmax() / root() that substitutes the unrefined estimate is reported (R-SWALLOW).",
     "note": "Trusted: ORBITAL_ELEM tables as the library's mean elements (audited against the VSOP87 series by C07); 365.2425 / 1721060 as the year->JD map of the prologue. Undecided: correctness of the periodic correction coefficients (corr series), monotonicity and spacing within natural variation, node passages as events of the theory.",
 }
 
